@@ -11,7 +11,8 @@ namespace Sygma.C14
 theorem gen_rollover (ms : List (Nat × Nat)) (gas g cap : Nat) (h : gas + g < M) :
     Generated.C14.rollover ms.length gas g cap = true ↔ (ms ≠ [] ∧ cap ≤ (gas + g) % M) := by
   rw [Nat.mod_eq_of_lt h]
-  cases ms <;> simp [Generated.C14.rollover]
+  -- written to survive an equivalent re-spelling of the source test (operands swapped, `0 < n`, `cap <= sum` …)
+  cases ms <;> simp [Generated.C14.rollover] <;> omega
 
 /-- the gas is added *after* the roll-over decision and before the proposal is appended -/
 theorem gen_order : Generated.C14.order = ["rollover", "gas-add", "append"] := by decide
